@@ -254,6 +254,15 @@ pub fn run(ctx: &Ctx, rep: &mut Report) {
         }
       }
       if bad.is_empty() {
+        if rep.want_sample() {
+          rep.sample(json!({
+            "command": format!("ord wallet {}", args.join(" ")),
+            "wallet_before": before.wallet.iter().map(|(k, v)| (k.to_string(), v.to_string())).collect::<BTreeMap<_, _>>(),
+            "wallet_after": after.wallet.iter().map(|(k, v)| (k.to_string(), v.to_string())).collect::<BTreeMap<_, _>>(),
+            "burned_after": after.burned.iter().map(|(k, v)| (k.to_string(), v.to_string())).collect::<BTreeMap<_, _>>(),
+            "recipients": want_others.iter().map(|((s, r), a)| format!("{} +{a} of {r}", Address::from_script(s, Network::Regtest).unwrap())).collect::<Vec<_>>(),
+          }));
+        }
         rep.count(&format!("moved_exactly_{kind}"));
         if pieces.len() > 1 {
           rep.count("moved_exactly_with_several_outputs_of_the_rune");
